@@ -288,8 +288,10 @@ func c19(args []string) {
 					}
 				}
 				content := sb.String()
-				s := &spec.Spec{Name: "split", MaxTasks: 2, Sources: map[string]string{"big.txt": content}}
-				s.Procs = append(s.Procs, &spec.Proc{Name: "S", Kind: spec.KFileSource, Files: []string{"big.txt"}}, &spec.Proc{Name: "SP", Kind: spec.KSplitter, Lines: per}, &spec.Proc{Name: "R", Kind: spec.KRecorder})
+				// the file to split lies in the working directory, in a sub-directory, or beside the working directory
+				big := []string{"big.txt", "sub/dir/big.txt", "../up/big.txt"}[(nl+per)%3]
+				s := &spec.Spec{Name: "split", MaxTasks: 2, Sources: map[string]string{big: content}}
+				s.Procs = append(s.Procs, &spec.Proc{Name: "S", Kind: spec.KFileSource, Files: []string{big}}, &spec.Proc{Name: "SP", Kind: spec.KSplitter, Lines: per}, &spec.Proc{Name: "R", Kind: spec.KRecorder})
 				s.Conns = append(s.Conns, &spec.Conn{From: "S.out", To: "SP.file"}, &spec.Conn{From: "SP.split_file", To: "R.in"})
 				per := per
 				jobs = append(jobs, &c19Job{name: "FileSplitter", s: s, cfg: cfgOf(3), label: fmt.Sprintf("%d lines, %d per split, trailing newline %v", nl, per, trailing),
